@@ -13,6 +13,7 @@ where to probe, never what to expect.
                        conv <zone>                -> probe table (see conv_table)
                        rule <zone>                -> event table (see rule_table)
                        fix <zone> <u1> <u2> ...   -> "U ..." lines for given instants
+                       occ <zone> <l1> <l2> ...   -> "O ..." lines (see occ_lines) for given wall-clock seconds
   --dump DIR [zone ...]   write the tables to DIR/<zone with / -> __>.tbl (inspection only)
   --selftest         cross-check the two classifications (candidate method vs PEP 495 fold)
   --vdrv quick|thorough [--shard i/n] [--only K]   the same cross-check as a vcheck driver
@@ -332,6 +333,8 @@ def serve():
                     out = rule_table(z)
                 elif a[0] == 'fix':
                     out = [uline(z, int(u), 'fix') for u in a[2:]]
+                elif a[0] == 'occ':
+                    out = occ_lines(z, [int(l) for l in a[2:]])
                 else:
                     out = ['error unknown request']
         except Exception as e:   # the driver turns this into a hard failure
